@@ -110,7 +110,7 @@ def nontrivial(prop, res):
     return False
 
 
-def classify(prop, case, res, idx):
+def classify(prop, case, res, idx, model=None):
     ev = res[1][idx]
     kind = UT.get(ev[1], str(ev[1])) if ev[0] == 19 else EV.get(ev[0], str(ev[0]))
     if prop == "C05" and kind == "MODAL_RETURN":
@@ -149,6 +149,25 @@ def classify(prop, case, res, idx):
                     # back to the active (modal) level
                     if not any(x[0] == 22 and x[1] == ev[2][0] for x in before[:k]):
                         return "input-beneath-modal:prompt-for-unregistered-screen"
+                    # (5) _process_screen asked on behalf of a screen whose entry was no longer the top one (the top
+                    # changed during show_all(), after the only re-check)
+                    st5 = []
+                    for x in before[:k]:
+                        if x[0] == 19 and x[1] == 15:
+                            if x[2][0] == 0:
+                                st5.append(x[2][2])
+                            elif x[2][0] == 1:
+                                st5.insert(0, x[2][2])
+                            elif st5:
+                                st5.pop()
+                    if st5 and st5[-1] != ev[2][0]:
+                        return "input-beneath-modal:prompt-after-top-changed"
+        # every mechanism of F16 has one root: a ready signal is routed by the registration of its SOURCE screen in the
+        # loop levels, not by the position of that screen on the stack.  The faithful model (validated event for event
+        # against the code) reproduces that routing; a T_INPUT beneath an open modal screen that the MODEL performs too,
+        # after an identical history, is this finding.  One that the model does not perform is reported as new.
+        if model is not None and model[1][:idx + 1] == res[1][:idx + 1]:
+            return "input-beneath-modal:routed-by-source-registration"
     if prop == "C06" and kind == "INPUT":
         # finding F15: InputManager._input_args is one slot per screen: a LATER request of the same screen
         # (refused, or still outstanding) overwrote the args of the request this line answers
@@ -252,7 +271,7 @@ def run(chk, tier, prop):
                 nbad += 1
                 continue
         if v[0] == 0:
-            key = classify(prop, c, i, v[1])
+            key = classify(prop, c, i, v[1], m)
             chk.violation(key, "%s acceptor rejects the implementation's own trace at event %d: %s" % (prop, v[1], show(i[1][v[1]])),
                           dict(kind="screen", prop=prop, case=c, rejected_index=v[1], trace=pretty(i[1], v[1])), found=True)
             nbad += 1
